@@ -205,7 +205,8 @@ func runC08(cfg Config) {
 			"from an HTTP store that holds back the k-th request (every k, n = 1 and 4, with and without --in-place, destination absent / "+
 			"holding other data) and is SIGKILLed: without --in-place the destination must be untouched; with --in-place the re-run must "+
 			"complete with the exact blob and must fetch at most n-1 of the chunks the first run had been served (0 for n = 1), and its "+
-			"result and counters must equal the Lean assemble model run on the crashed file as prior content. non-trivial = a run in which "+
+			"result and counters must equal the Lean assemble model run on the crashed file as prior content; the in-place scenario is also run "+
+			"onto a loop block device (when root and /dev/loop-control permit, else counted as skipped) next to a regular file with the same prior content. non-trivial = a run in which "+
 			"the child really died before finishing")
 	self, _ := os.Executable()
 	m, err := StartModel(cfg.Driver)
@@ -358,6 +359,7 @@ func runC08(cfg Config) {
 	for it := 0; it < cfg.N(2, 8); it++ {
 		c08Extract(cfg, rep, m, rng, bin, monitor)
 	}
+	c08BlockDev(cfg, rep, rng, bin, monitor) // the same scenario onto a loop block device (c08blockdev.go)
 	rep.Write(cfg.Out)
 }
 
